@@ -294,11 +294,48 @@ def r10_5(ck: Check) -> None:
                    "locator ids are taken from the active chain at those heights, starting from the head's height")
 
 
+def _int_consts(t: Any) -> List[Any]:
+    out: List[Any] = []
+    if isinstance(t, tuple):
+        if len(t) == 2 and t[0] == "c" and isinstance(t[1], int) and not isinstance(t[1], bool):
+            out.append(t)
+        elif t and t[0] == "lin" and len(t) == 3 and isinstance(t[2], int):
+            out.append(("c", abs(t[2])))
+            for a_, _c in t[1]:
+                out.extend(_int_consts(a_))
+        else:
+            for x in t:
+                out.extend(_int_consts(x))
+    return out
+
+
+def _conj_set(conds: Any) -> set:
+    out = set()
+    for c in conds:
+        out |= set(c[1]) if isinstance(c, tuple) and c and c[0] == "and" else {c}
+    return out
+
+
 def r10_6(ck: Check) -> None:
     s = ck.summ(CM + "should_actively_fetch_blocks", 0)
-    require_return(ck, "R10.6", s, Spec(s, ("self", "now")),
-                   "(now > self.coinstate.head().timestamp + 300) or (now <= self.started_at + 60) or (now % 60 == 0)",
-                   "fetch actively when the head is older than 5 minutes, right after start, and once a minute")
+    # the three periods are tuning, not part of the property: any positive whole numbers of seconds keep the node fetching
+    from ..engine.match import function_value, same_value
+    spf = Spec(s, ("self", "now"))
+    got = function_value(s)
+    ints = sorted({x[1] for x in _int_consts(got)} - {0, 1, -1}) if got is not None else []
+    okf = False
+    if got is not None and 1 <= len(ints) <= 3:
+        import itertools
+        for a_, b_, c_ in itertools.product(ints, repeat=3):
+            want_f = spf.term("(now > self.coinstate.head().timestamp + %d) or (now <= self.started_at + %d) or (now %% %d == 0)" % (a_, b_, c_))
+            if same_value(got, want_f) and min(a_, b_, c_) > 0:
+                okf = True
+                break
+    construct = "should_actively_fetch_blocks: head older than A s, or within B s of start, or once every C s (A, B, C > 0)"
+    if okf:
+        ck.ok("R10.6", construct, "fetch actively when the head is old, right after start, and periodically", s.fi.loc)
+    else:
+        ck.violated("R10.6", construct, "returns %s" % (show(got)[:240] if got is not None else None), s.fi.loc)
     st = ck.summ(CM + "step", 0)
     sp = Spec(st, ("self", "now"))
     early = [r for r in st.returns() if [c.term for c in r.pc] == [sp.term("not self.should_actively_fetch_blocks(now)")]]
@@ -314,7 +351,13 @@ def r10_6(ck: Check) -> None:
     pruned = [e for e in st.events if e.kind == "store" and e.term == sp.term("self.actively_fetching_blocks_from_peers")]
     want_pruned = sp.term("[(t, p) for (t, p) in self.actively_fetching_blocks_from_peers if now < t and not inventory_batch_handled(p)]")
     construct = "ChainManager.step: a fetch session is kept only while it is neither timed out nor completely handled"
-    if len(pruned) == 1 and pruned[0].value == want_pruned:
+    okp = len(pruned) == 1 and pruned[0].value == want_pruned
+    if not okp and len(pruned) == 1:
+        # dropping MORE sessions (e.g. those of peers that disconnected) only frees the slot sooner: the kept ones must satisfy both conditions
+        v, w = pruned[0].value, want_pruned
+        okp = (v is not None and v[0] == "comp" and v[1] == "list" and v[2] == w[2] and len(v[3]) == 1 and v[3][0][0] == w[3][0][0]
+               and _conj_set(w[3][0][1]) <= _conj_set(v[3][0][1]))
+    if okp:
         ck.ok("R10.6", construct, "", pruned[0].loc)
     else:
         ck.violated("R10.6", construct, "a session that is kept when timed out OR unhandled blocks the fetch slot forever (no further get-blocks is "
